@@ -50,7 +50,7 @@ RULE = (
     "case = one program P checked under every environment of its shard: R in-process runs on one fresh Checker (3 warm-up + "
     "5-6 compared), self/prefix/warm-up+reversed/related histories on shared Checkers, one fresh interpreter per environment "
     "(base; 3-6 heap layouts with the base seed; 5-14 other PYTHONHASHSEEDs, 2-4 of them twice with another layout; the list in "
-    "reverse order after a warm-up program), and for a sample the CLI on a directory vs single file vs --parallel. Corpus: 24 "
+    "reverse order after a warm-up program), and for a sample the CLI on a directory vs single file vs --parallel. Corpus: 23 "
     "targeted families (or-chains of 3-5 narrowing conditions, assignments in try/with bodies, 3-6 unused variables, 2-5 "
     "unexpected keywords, protocols with 3-6 members, %(k)s/{k} templates with missing/unused keys, unions of >=10 literals, "
     "TypedDict, overloads, constrained TypeVars, match or-patterns, set/dict displays, bad context managers, bad calls of "
